@@ -121,7 +121,10 @@ CLAIMED["C05"] = dict(
         "memcheck subset (thorough). "
         "Pipeline level (Props/C05Pipeline): kalignRun_never_fuel, C05_controller_never_faults, C05_path_read_in_bounds hold unconditionally (any score carrier, any comparison "
         "outcomes: all path/kernel/blit accesses in bounds, cut column in range); kalignRun_never_faults_partial reduces 'the composed model never reaches a fault value' to two "
-        "named hypotheses about binary32 values (UPGMA sees finite entries; the meetup contract holds), which core Lean cannot decide. Coverage-guided libFuzzer target as extra search.",
+        "named hypotheses about binary32 values (UPGMA sees finite entries; the meetup contract holds), which core Lean cannot decide. Coverage-guided libFuzzer target as extra search. "
+        "Software binary32 (Model/SoftFloat.lean: IEEE-754 binary32 in core Lean, tied bit-for-bit to C float by the f32 ops, 1.2M operand pairs, and to the whole program by "
+        "kalign_sys_soft): Props/SoftFloat (laws, sentinel absorption, boundedness), C07Soft_seqseq_mon and monHyp_bounded (the Hirschberg meetup contract holds for all "
+        "reachable operands with nsip <= 2^17, len_a+len_b < 2^19, no hypothesis about values), kalignRunSoft_never_fault_monitor_of_distinct.",
    note="PARTIAL by nature: heap behaviour of libc/libgomp, stack depth of recursions, OOM paths are not modelled; the theorem part covers readers/tables/path expansion only.",
    technique="Lean 4 proofs about fault-aware models + sanitizer-instrumented differential/fuzz search",
    ref="4 C05")
